@@ -35,11 +35,11 @@ def descent_check(rep, fn, cmp_is, key_name, data_pred):
     def on_stmt(st, b, i, stmt):
         if b.id in body:
             for n in walk(stmt):
-                if n["k"] == "asg" and strip_casts(n["l"])["k"] == "ref":
-                    r = strip_casts(n["r"])
-                    if r is not None and r["k"] == "un" and r["op"] == "&":
-                        r = strip_casts(r["e"])
-                    if r is not None and r["k"] == "member" and r["field"] in ("left", "right") and r.get("rec", "").startswith("PTreeBaseNode"):
+                # every evaluated read of a child link inside the descent loop is a move (also when it is one arm of a
+                # conditional expression, which the CFG evaluates in a block of its own)
+                if n["k"] == "member" and n["field"] in ("left", "right") and n.get("rec", "").startswith("PTreeBaseNode"):
+                    r = n
+                    if True:
                         # what is known about the comparison result here?
                         def rel(op, st=st):
                             for (fk, fop, fv) in st:
